@@ -5,7 +5,6 @@ import (
 	"encoding/binary"
 	"fmt"
 	"io"
-	"sort"
 	"strings"
 	"sync"
 
@@ -183,10 +182,10 @@ func (vc *VCache) getMappedVersionsDist(v dvid.VersionID) distFromRoot {
 
 // getAncestorDists returns every ancestor of v (v included), following all parents of
 // merge nodes, ordered from v toward the root, and for each of them its own distFromRoot
-// map.  The distance of a version is measured along the longest path from the root
-// (root = 1), so a version is always farther from the root than any of its ancestors and
-// the mappings written on either side of a merge are visible at the merge node.  For a
-// history without merges this is the first-parent ancestry with root = 1, leaf = length.
+// map.  The distance of a version is its rank in one total order of the ancestors in which
+// a version always comes after its own ancestors (root = 1), so the mappings written on either
+// side of a merge are visible at the merge node.  For a history without merges this is the
+// first-parent ancestry with root = 1, leaf = length.
 func getAncestorDists(v dvid.VersionID) ([]dvid.VersionID, map[dvid.VersionID]distFromRoot, error) {
 	parents := make(map[dvid.VersionID][]dvid.VersionID)
 	stack := []dvid.VersionID{v}
@@ -203,32 +202,44 @@ func getAncestorDists(v dvid.VersionID) ([]dvid.VersionID, map[dvid.VersionID]di
 		parents[cur] = ps
 		stack = append(stack, ps...)
 	}
+	// One total order over the ancestors that extends the ancestor relation: every version after
+	// all of its own ancestors, and of the parents of a merge the first parent's line nearest the
+	// merge.  With a partial ranking (e.g. path lengths) two competing mappings on the two sides of
+	// a merge could tie, and different reads of the same version resolved them differently.
 	dist := make(distFromRoot, len(parents))
-	var longest func(x dvid.VersionID) uint32
-	longest = func(x dvid.VersionID) uint32 {
-		if d, found := dist[x]; found {
-			return d
-		}
-		var d uint32
-		for _, p := range parents[x] {
-			if pd := longest(p); pd > d {
-				d = pd
+	seen := make(map[dvid.VersionID]struct{}, len(parents))
+	rootFirst := make([]dvid.VersionID, 0, len(parents))
+	var visit func(cur dvid.VersionID)
+	visit = func(cur dvid.VersionID) {
+		var line []dvid.VersionID // cur and its single-parent ancestors, nearest first
+		for {
+			if _, found := seen[cur]; found {
+				break
 			}
+			seen[cur] = struct{}{}
+			line = append(line, cur)
+			ps := parents[cur]
+			if len(ps) == 0 {
+				break
+			}
+			if len(ps) > 1 {
+				for i := len(ps) - 1; i >= 0; i-- {
+					visit(ps[i])
+				}
+				break
+			}
+			cur = ps[0]
 		}
-		dist[x] = d + 1
-		return d + 1
-	}
-	longest(v)
-	ordered := make([]dvid.VersionID, 0, len(parents))
-	for x := range parents {
-		ordered = append(ordered, x)
-	}
-	sort.Slice(ordered, func(i, j int) bool {
-		if dist[ordered[i]] != dist[ordered[j]] {
-			return dist[ordered[i]] > dist[ordered[j]]
+		for i := len(line) - 1; i >= 0; i-- {
+			rootFirst = append(rootFirst, line[i])
 		}
-		return ordered[i] < ordered[j]
-	})
+	}
+	visit(v)
+	ordered := make([]dvid.VersionID, len(rootFirst))
+	for i, x := range rootFirst {
+		dist[x] = uint32(i + 1)
+		ordered[len(rootFirst)-1-i] = x
+	}
 	// every ancestor sees exactly its own ancestors
 	dists := make(map[dvid.VersionID]distFromRoot, len(ordered))
 	for i := len(ordered) - 1; i >= 0; i-- { // root first: parents are complete before their children
